@@ -5,6 +5,14 @@ COMMON_ASSUME = [
 ]
 NOT_APPLICABLE = {}
 PROPS = {
+    "C11": {
+        "claim": "TODO", "note": "TODO",
+        "props_file": "props/C11.v",
+        "shards": (4, 16),
+        "rule": "TODO",
+        "assumptions": COMMON_ASSUME,
+        "trusted_base": [],
+    },
     "C10": {
         "claim": 'Coq theorems (closed, no axioms): annotate_type (both modes) returns every inhabitant of t unchanged; M^-1 (M v) = v at every type; coercion at the same type never fails. The annotate model is a transcription of IDLValue::annotate_type and is compared with it on inhabitants, near misses (wrong number width, missing field, unknown tag, wrong reference kind) and mutated types in both modes; a direct predicate checks annotate -> typed encode -> decode at t and with no expected type returns the value.',
         "note": 'Known finding (listed, not fixed): a func/service reference whose signature mentions a record type that reaches itself through record fields does not decode at its own type (replace_empty is applied to the wire side only). Number literals (IDLValue::Number) and the f64->f32 literal conversion are outside the model.',
